@@ -8,7 +8,7 @@ From AV Require Import Base.Bytes Base.Outcome Hash.HashModel Tree.Heap Tree.Ops
   Tree.Index Tree.IndexProofsBase Tree.IndexProofsAssoc Tree.IndexProofsFrame Tree.IndexProofsAttach
   Tree.IndexProofsTree Tree.IndexProofsCreate Tree.IndexProofsNamed Tree.Refs Tree.RefsProofsBase Tree.RefsProofs
   Tree.Follow Tree.FollowProofsPath Tree.FollowProofsTree Tree.IndexProofsReg Tree.IndexProofsMoveOp
-  Tree.CopyProofsDefs Tree.CopyProofsDeep.
+  Tree.CopyProofsDefs Tree.CopyProofsDeep Tree.CopyProofsCreate Tree.CopyProofsFK.
 Open Scope string_scope.
 Open Scope list_scope.
 Open Scope N_scope.
@@ -268,20 +268,39 @@ Qed.
 (* name and type of a node are those of some node of the old world *)
 Definition NTn (w : world) (nj : node) : Prop :=
   exists s ns, w_nodes w s = Some ns /\ n_name nj = n_name ns /\ n_type nj = n_type ns.
-Inductive NTtree (w w1 : world) : id -> Prop :=
-| NTt c nc : w_nodes w1 c = Some nc -> NTn w nc -> (forall y, In (CElem y) (n_content nc) -> NTtree w w1 y) -> NTtree w w1 c.
+Inductive NTtree (lo : N) (w w1 : world) : id -> Prop :=
+| NTt c nc : w_nodes w1 c = Some nc -> lo <= c -> NTn w nc -> (forall y, In (CElem y) (n_content nc) -> NTtree lo w w1 y) -> NTtree lo w w1 c.
 
 Lemma FiltR_nt lo v w w1 :
-  (forall p s c, FiltR T lo v w w1 p s c -> NTtree w w1 c) /\
-  (forall c ty l l', FiltRItems T lo v w w1 c ty l l' -> forall y, In (CElem y) l' -> NTtree w w1 y).
+  (forall p s c, FiltR T lo v w w1 p s c -> NTtree lo w w1 c) /\
+  (forall c ty l l', FiltRItems T lo v w w1 c ty l l' -> forall y, In (CElem y) l' -> NTtree lo w w1 y).
 Proof.
   apply FiltR_mutind.
-  - intros p s c ns nc Hs Hc _ _ _ Hnm Hty _ _ _ IH. econstructor; [exact Hc|exists s, ns; auto|exact IH].
+  - intros p s c ns nc Hs Hc Hlo _ _ Hnm Hty _ _ _ IH. econstructor; [exact Hc|exact Hlo|exists s, ns; auto|exact IH].
   - intros c ty y H. destruct H.
   - intros c ty d r r' _ IH y [E|H]; [discriminate E|auto].
   - intros c ty s cs sn x0 r r' _ _ _ _ IHn _ IHr y [E|H]; [injection E as <-; exact IHn|auto].
   - intros c ty s sn r r' _ _ _ IHr. exact IHr.
   - intros c ty s sn x0 r r' _ _ _ _ IHr. exact IHr.
+Qed.
+
+(* the same tree in a world whose fresh nodes have the same names, types and no more sub-elements *)
+Lemma NTtree_transport lo w w1 w' y :
+  (forall j nj1, lo <= j -> w_nodes w1 j = Some nj1 ->
+     exists nj', w_nodes w' j = Some nj' /\ n_name nj' = n_name nj1 /\ n_type nj' = n_type nj1 /\
+                 forall z, In (CElem z) (n_content nj') -> In (CElem z) (n_content nj1)) ->
+  NTtree lo w w1 y -> NTtree lo w w' y.
+Proof.
+  intros Htr H. induction H as [c nc Hc Hlo (s & ns & Hs & Hnm & Hty) _ IH].
+  destruct (Htr c nc Hlo Hc) as (nc' & Hc' & Hnm' & Hty' & Hsub).
+  econstructor; [exact Hc'|exact Hlo|exists s, ns; split; [exact Hs|split; congruence]|]. intros z Hz. apply IH. apply Hsub. exact Hz.
+Qed.
+Lemma walk_nt lo w w' f : forall y, NTtree lo w w' y -> forall j, In j (walk f w' y) ->
+  lo <= j /\ exists nj', w_nodes w' j = Some nj' /\ NTn w nj'.
+Proof.
+  induction f as [|f IH]; intros y Hy j Hj; [destruct Hj|]. inversion Hy as [c nc Hc Hlo Hnt Hk]; subst.
+  cbn [walk] in Hj. rewrite Hc in Hj. destruct Hj as [<-|Hj]; [split; [exact Hlo|eauto]|].
+  apply in_flat_map in Hj as ([z|d] & Hz & Hj); [|destruct Hj]. eapply IH; [apply Hk; exact Hz|exact Hj].
 Qed.
 
 Lemma FiltR_inv lo v w w1 p s c : FiltR T lo v w w1 p s c ->
@@ -584,5 +603,93 @@ Proof.
 Qed.
 
 End CopyInv.
+
+(* ---------- from the decidable condition copy_clean to the hypotheses of the section above *)
+Variable root_attrs : list (N * cdata).
+Notation Known05 := (Known05 T tab_el tab_en check_fn LATEST root_attrs).
+
+Lemma range_complete lo hi (ids : list id) :
+  NoDup ids -> N.of_nat (List.length ids) = hi - lo -> (forall j, In j ids -> lo <= j < hi) ->
+  forall j, lo <= j < hi -> In j ids.
+Proof.
+  intros Hnd Hlen Hrange j Hj.
+  set (rng := map (fun k => lo + N.of_nat k) (seq 0 (N.to_nat (hi - lo)))).
+  assert (Hincl : incl ids rng).
+  { intros y Hy. destruct (Hrange y Hy) as (H1 & H2). apply in_map_iff. exists (N.to_nat (y - lo)). split; [lia|]. apply in_seq. lia. }
+  assert (Hlen2 : (List.length rng <= List.length ids)%nat) by (unfold rng; rewrite map_length, seq_length; lia).
+  apply (NoDup_length_incl Hnd Hlen2 Hincl). apply in_map_iff. exists (N.to_nat (j - lo)). split; [lia|]. apply in_seq. lia.
+Qed.
+
+Lemma copy_inner_inv self other pos m v w c w' n :
+  TreeFacts w -> Inv04 w -> Inv05 T w -> MReach T w m self -> w_nodes w self = Some n ->
+  create_copied_sub_element_inner T self other pos m v w = Val (OK c, w') ->
+  copy_clean T w w' self c = true ->
+  content_mode T (n_type n) <> Val MCharacters ->
+  (N.to_nat pos = O -> identifiable_n T w n = false /\ (named T (n_type n) = true -> nm_of w other <> SHORTN)) ->
+  Inv04 w' /\ Inv05 T w'.
+Proof.
+  intros HF HI HI5 HRself Hn H Hclean Hmode Hfront.
+  pose proof (tf_closed w HF) as Cw.
+  destruct (CopyProofsCreate.ccsei_spec T _ _ _ _ _ _ _ _ Cw H) as (Cw' & _).
+  assert (HFK : FreshKids (w_next w) w').
+  { destruct (CopyProofsFK.ccsei_FK T (w_next w) _ _ _ _ _ _ _ _ H) as (_ & _ & HK); [apply N.le_refl| |exact HK].
+    intros p np y Hp Hnp _. pose proof (tf_alloc _ HF _ _ Hnp). lia. }
+  destruct (copy_inner_shape self other pos m v w c w' HF HI HRself H)
+    as (n0 & w1 & cn0 & x & path & L & R & ren & Hn0 & Hpath & Hx & Cw1 & HE & HFR & Hcn0 & Hnx & Hfl & Hpos & Hself' & Hc' & Hother & Hren & Hfree & Hmodels & w3 & Hw3 & Hent).
+  assert (n0 = n) by congruence. subst n0.
+  (* unfold the decidable condition *)
+  unfold copy_clean in Hclean. rewrite Hn in Hclean.
+  destruct (path_unchecked T n w) as [[[path0|e0] wq]| |] eqn:Epu; try discriminate Hclean.
+  destruct (path_unchecked_spec T w m self n HF Hn HRself) as (_ & Hps).
+  destruct (Hps _ _ Epu) as (_ & p1 & [= <-] & Hsp1). destruct (specpath_fun T _ _ _ _ _ _ HF Hsp1 Hpath) as (_ & ->).
+  set (w3c := mkWorld (fun j => if j =? self then Some n else w_nodes w' j) (w_next w') (w_files w') (w_models w')) in *.
+  assert (Hent_c : reg_entries T (fuel_of w') w3c path c = Some (L, R)).
+  { rewrite <- Hent. apply reg_entries_nodes. intros j. cbn. rewrite Hw3. reflexivity. }
+  rewrite Hent_c in Hclean. repeat (apply andb_true_iff in Hclean as (Hclean & ?)).
+  match goal with Hx0 : forallb _ _ = true |- _ => rename Hx0 into Hok end.
+  match goal with Hx0 : (_ || _) = true |- _ => rename Hx0 into HLc end.
+  match goal with Hx0 : nodupN (map snd R) = true |- _ => apply nodupN_sound in Hx0; rename Hx0 into HRnd end.
+  match goal with Hx0 : nodupb (map fst L) = true |- _ => apply nodupb_sound in Hx0; rename Hx0 into HLnd end.
+  match goal with Hx0 : (_ =? _) = true |- _ => apply N.eqb_eq in Hx0; rename Hx0 into Hlen end.
+  apply nodupN_sound in Hclean. rename Hclean into Hidnd.
+  set (ids := walk (fuel_of w') w' c) in *.
+  (* the tree of the copy in the final world *)
+  assert (Hlo_c : w_next w <= c) by (destruct (FiltR_inv _ _ _ _ _ _ _ HFR) as (? & ? & _ & _ & Hl & _); exact Hl).
+  assert (Hself_lt : self < w_next w) by (eapply tf_alloc; eauto).
+  assert (Hren_lo : forall s sn nm, ren = Some (s, sn, nm) -> w_next w <= s).
+  { intros s sn nm Er. destruct (Hren s sn nm Er) as ((rest & Hc0) & _). eapply (FiltR_kid_lo _ _ _ _ _ _ _ cn0 s HFR Hcn0). rewrite Hc0. left. reflexivity. }
+  assert (HNT : NTtree (w_next w) w w' c).
+  { apply (NTtree_transport (w_next w) w w1 w'); [|apply (proj1 (FiltR_nt (w_next w) v w w1)) in HFR; exact HFR].
+    intros j nj1 Hj Hj1. destruct (N.eq_dec j c) as [->|Hjc].
+    - rewrite Hcn0 in Hj1. injection Hj1 as <-. eexists. split; [exact Hc'|]. cbn. auto.
+    - rewrite Hother; [|lia|exact Hjc]. destruct (renamed_cases w1 ren j) as [(-> & _)|(s & sn & nm & Er & -> & ->)].
+      + exists nj1. auto.
+      + destruct (Hren s sn nm Er) as (_ & Hs1 & _). rewrite Hs1 in Hj1. injection Hj1 as <-. eexists. split; [reflexivity|]. cbn.
+        split; [reflexivity|]. split; [reflexivity|]. intros z [E|[]]. discriminate E. }
+  assert (Hids_nt : forall j nj', In j ids -> w_nodes w' j = Some nj' -> NTn w nj').
+  { intros j nj' Hj Hj'. destruct (walk_nt _ _ _ _ c HNT j Hj) as (_ & nj2 & Hj2 & Hnt). congruence. }
+  assert (Hrange : forall j, In j ids -> w_next w <= j < w_next w').
+  { intros j Hj. destruct (walk_nt _ _ _ _ c HNT j Hj) as (Hlo & nj2 & Hj2 & _). split; [exact Hlo|]. eapply (proj1 Cw'); eauto. }
+  assert (Hall : forall j, w_next w <= j < w_next w' -> In j ids) by (apply range_complete; assumption).
+  rewrite forallb_forall in Hok.
+  assert (HposN : (N.to_nat pos <= List.length (n_content n))%nat) by exact Hpos.
+  assert (Hcn0_name : n_name cn0 = nm_of w other).
+  { destruct (FiltR_inv _ _ _ _ _ _ _ HFR) as (ns & nc & Hs & Hc & _ & Hnm & _). rewrite Hcn0 in Hc. injection Hc as <-.
+    unfold nm_of. rewrite Hs. exact Hnm. }
+  split.
+  - eapply (copy_inv04 w w' w1 w3 self c n cn0 (N.to_nat pos) m x path L R ren v other ids); eauto.
+    + intros j nj' Hwj Hj'. apply Hall. split.
+      * destruct (N.lt_ge_cases j (w_next w)) as [Hlt|Hge]; [exfalso|exact Hge].
+        assert (j <> self) by (intros ->; congruence). rewrite Hother in Hj'; [|assumption|lia].
+        destruct (renamed_cases w1 ren j) as [(E & _)|(s & sn & nm & Er & -> & _)].
+        -- rewrite E in Hj'. destruct HE as (_ & Hk & _). rewrite Hk in Hj' by exact Hlt. congruence.
+        -- pose proof (Hren_lo s sn nm Er). lia.
+      * eapply (proj1 Cw'); eauto.
+    + apply orb_true_iff in HLc as [Hl|Hl]; [left; exact Hl|right]. destruct L; [reflexivity|discriminate].
+    + intros Hp. destruct (Hfront Hp) as (H1 & H2). split; [exact H1|]. intros Hnm. rewrite Hcn0_name. exact (H2 Hnm).
+  - eapply (copy_inv05 w w' w1 w3 self c n cn0 (N.to_nat pos) m x path L R ren v other); eauto.
+    + apply orb_true_iff in HLc as [Hl|Hl]; [left; exact Hl|right]. destruct L; [reflexivity|discriminate].
+    + intros Hp. destruct (Hfront Hp) as (H1 & H2). split; [exact H1|]. intros Hnm. rewrite Hcn0_name. exact (H2 Hnm).
+Qed.
 
 End Copy.
